@@ -69,6 +69,8 @@ use std::path::PathBuf;
 use std::sync::{Arc, Mutex};
 use tokio_util::sync::CancellationToken;
 
+#[cfg(all(not(windows), azure_guestproxyagent_verif))]
+pub use linux::verif_encoders;
 #[cfg(not(windows))]
 pub use linux::BpfObject;
 #[cfg(windows)]
